@@ -98,4 +98,6 @@ def is_response_to_head(response: httplib.HTTPResponse) -> bool:
     """
     # FIXME: Can we do this somehow without accessing private httplib _method?
     method_str = response._method  # type: str  # type: ignore[attr-defined]
-    return method_str.upper() == "HEAD"
+    # httplib frames the response as body-less only for the exact token "HEAD";
+    # for any other spelling it expects (and leaves on the wire) a body.
+    return method_str == "HEAD"
